@@ -374,6 +374,10 @@ func runC16(c *Ctx) {
 
 	// ---------- error discipline (E8)
 	errDisciplineFor(c, "C16")
+
+	// ---------- R16.10 (shared with C09 R09.6)
+	c.Import(runC09, "R09.6", "", "R16.10", "E1", "a failed reconcile without an explicit requeue interval always gets the per-item backoff and is requeued: a failing queue item is retried until it succeeds", 3)
+
 }
 
 // blockingOps: in the controller-runtime packages every blocking select has a context/done arm and there is no bare
